@@ -12,13 +12,13 @@ type varInfo struct {
 }
 
 type bodyCtx struct {
-	g     *genCtx
-	ti    *typeInfo
-	m     *Method
-	scope []*varInfo
-	sites int
-	seq   int
-	used  map[string]bool // every local name ever declared in this method (never re-declared, not even after its block ended)
+	g      *genCtx
+	ti     *typeInfo
+	m      *Method
+	scope  []*varInfo
+	sites  int
+	seq    int
+	used   map[string]bool // every local name ever declared in this method (never re-declared, not even after its block ended)
 	static bool
 }
 
@@ -285,6 +285,14 @@ func (b *bodyCtx) newExpr(depth int, ty string) *Expr {
 	e := &Expr{Kind: "new", Site: &Site{Kind: "new", Name: name, Recv: RecvNew}}
 	e.Args = b.args(depth + 1)
 	e.Site.NArgs = len(e.Args)
+	if b.g.o.AnonClasses && r.Chance(1, 5) {
+		// an anonymous subclass: its members are declarations, not calls of the enclosing method
+		e.AnonBody = r.Pick([]string{
+			" { public void run() { } }",
+			" { @Override public String toString() { return \"x\"; } }",
+			" { int seen; public void accept(Object o) { seen = 1; } public int size() { return seen; } }",
+		})
+	}
 	return e
 }
 
@@ -446,8 +454,10 @@ func (b *bodyCtx) call(depth int) *Expr {
 func FinalizeSites(p *Project) {
 	proj := map[string][]*File{}
 	for _, f := range p.Files {
-		if f.Type != nil && f.Role == RoleMain {
-			proj[f.Type.Name] = append(proj[f.Type.Name], f)
+		if f.Role == RoleMain {
+			for _, t := range f.Types() {
+				proj[t.Name] = append(proj[t.Name], f)
+			}
 		}
 	}
 	for _, f := range p.Files {
@@ -460,7 +470,11 @@ func FinalizeSites(p *Project) {
 				single[im.Path[strings.LastIndex(im.Path, ".")+1:]] = im.Path
 			}
 		}
-		for _, m := range f.Type.Methods() {
+		var allMethods []*Method
+		for _, t := range f.Types() {
+			allMethods = append(allMethods, t.Methods()...)
+		}
+		for _, m := range allMethods {
 			for _, s := range m.Sites {
 				if s.Recv != RecvField && s.Recv != RecvParam && s.Recv != RecvLocal {
 					continue
